@@ -31,16 +31,16 @@ PROPERTIES = {
         "machine": "eval_sim",
         "engine": "Sim-E",
         "level": "exploration",
-        "level_text": "Seeded search over query shapes, stream-backed domains and stop points k: the event monitor stamps every user-code event (attribute read, method/predicate/function call, container access, stream pull) with the consumer's phase, and the rules L1-L7 are checked on that history - no event during construction, evaluate() call, idle/close/drop/gc; prefix property of the first k results; exact demand on the driving stream (single-variable queries), existence of a driver (conjunctive multi-variable queries), bounded steps over an unbounded stream. Exploration because the claim is about when user code runs relative to the consumer's actions, which only an owned schedule of next()/close() calls with logged streams can observe.",
+        "level_text": "Seeded search over query shapes, stream-backed domains and stop points k: the event monitor stamps every user-code event (attribute read, method/predicate/function call, container access, stream pull) with the consumer's phase, and the rules L1-L9 are checked on that history - no event during construction (variables, conditions, queries, rule trees, patterns; incl. literal operands), evaluate() call, idle/close/drop/gc; prefix property of the first k results; exact demand on the driving stream (single-variable queries, with result-count constraints, single-variable rule queries, patterns); the nested-loop first-pass rule (conjunctive multi-variable queries); bounded steps over an unbounded stream; exact demand on a lazily produced collection attribute under flatten; for_all pulls its universal stream exactly until every candidate is refuted. Exploration because the claim is about when user code runs relative to the consumer's actions, which only an owned schedule of next()/close() calls with logged streams can observe.",
         "design_ref": "DESIGN.md section 5, C10",
-        "level_note": "Trusted: the instrumented world (every attribute of an item is a logging property, streams log every pull), the phase bracketing of the machine. Demand rules L5/L6 apply only to the query classes stated in DESIGN.md (union-, quantifier- and sub-query-free); other shapes are checked with L1-L4 only. Pattern-matching construction (entity_matching) is not in the workload.",
+        "level_note": "Trusted: the instrumented world (every attribute of an item is a logging property, streams log every pull), the phase bracketing of the machine. Demand rules L5/L6 apply only to the query classes stated in DESIGN.md (union-, quantifier- and sub-query-free); other shapes are checked with L1-L4 only. Domains are one-shot generators, unbounded generators and sized re-iterable containers whose __len__/iteration are observed.",
         "technique": "deterministic simulation: consumer-step schedule with stop-after-k/close/drop/gc faults over logged one-shot and unbounded streams; event-order oracle plus prefix oracle against isolated evaluation",
         "tiers": {
             "quick": {"runs": 10000, "wall_s": 150, "triage_s": 60},
             "thorough": {"runs": 800000, "wall_s": 3000, "triage_s": 300},
         },
         "cfg": {},
-        "rule": "one run = one generated scenario in one of four modes (single-variable query over a stream; 2-3 variable conjunctive query over streams; general query incl. rule queries, sub-queries, quantifiers; single-variable query over an unbounded stream) + a consumer schedule (start, k steps, optional drain, close/drop/leave, gc). Non-trivial: at least one stream-backed domain with >=2 elements (or unbounded) and at least one user-code event. Distinct: hash of (query shape without constants, op list, domain kinds).",
+        "rule": "one run = one generated scenario in one of seven modes (single-variable query over a stream; flatten over a lazily produced collection attribute; 2-3 variable conjunctive query over streams; general query incl. rule queries, sub-queries, quantifiers; single-variable query over an unbounded stream; pattern matching over logged dataclass Symbols; for_all over a bounded or unbounded universal stream) + a consumer schedule (start, k steps, optional drain, close/drop/leave, gc). Non-trivial: at least one stream-backed domain with >=2 elements (or unbounded) and at least one user-code event. Distinct: hash of (query shape without constants, op list, domain kinds).",
         "components": REAL_EQL,
         "assumptions": [
             "L4 compares with the real engine evaluating the same query on a freshly built scenario; semantic correctness of that evaluation is out of scope",
@@ -55,7 +55,7 @@ PROPERTIES["C14"] = {
     "machine": "lifecycle_sim",
     "engine": "Sim-L",
     "level": "exploration",
-    "level_text": "Differential seeded search over lifetime histories: a run is (prefix, suffix); the prefix creates, relates, ties into cycles, drops, garbage-collects, sweeps and clears instances in orders that mirror or permute the suffix's so that rustworkx node indices and object ids are recycled; the suffix creates a few ontology instances and asserts relations (single-valued assignment, append, add, direct relation objects). Variant A runs the suffix alone on a fresh graph in a forked grandchild, variant B runs prefix then suffix; the recorded relations among suffix instances and every managed field of every suffix instance must be identical, no relation may attach to a foreign or dead instance, and no assertion between live instances may raise. Exploration because the failing condition is a coincidence of lifetimes (which wrapper died when, which index was reused) that only an owned GC schedule produces.",
+    "level_text": "Differential seeded search over lifetime histories: a run is (prefix, suffix); the prefix creates, relates, ties into cycles, drops, garbage-collects, sweeps and clears instances in orders that mirror or permute the suffix's so that rustworkx node indices and object ids are recycled; the suffix creates a few ontology instances and asserts relations (single-valued assignment, append, add, direct relation objects). Variant A runs the suffix alone on a fresh graph in a forked grandchild, variant B runs prefix then suffix; the recorded relations among suffix instances and every managed field of every suffix instance must be identical, no relation may attach to a foreign or dead instance, and no assertion between live instances may raise. In 40% of the runs (liveness mode) one op list with un-assignments keeps relating SURVIVORS after other instances died; the reference variant runs the same ops but secretly keeps every dropped instance alive, and the comparison is restricted to instances alive in reality. Exploration because the failing condition is a coincidence of lifetimes (which wrapper died when, which index was reused) that only an owned GC schedule produces.",
     "design_ref": "DESIGN.md section 5, C14",
     "level_note": "Trusted: the harness ontology (sim/worlds/oworld.py), CPython reference counting and gc.collect() as the only reclamation events (automatic cyclic GC disabled), rustworkx index recycling as it is. Inferred list fields are compared as multisets (their order is not part of this property). Probes read SymbolGraph private indexes but never decide.",
     "technique": "deterministic simulation: scheduled reference drops / gc / sweep / clear as faults, differential oracle (suffix alone vs after prefix) in forked processes, ddmin-minimised replay",
@@ -73,7 +73,7 @@ PROPERTIES["C13"] = {
     "machine": "lifecycle_sim",
     "engine": "Sim-L",
     "level": "exploration",
-    "level_text": "Seeded search over histories of instance creation, reference drops, reference cycles, gc, sweeps, SymbolGraph clear/re-creation, variable declarations, queries (drained, partially consumed and held, partially consumed and dropped), re-evaluations and resumptions over a class hierarchy with single, multiple and diamond inheritance. After every query the result multiset is compared with a weak-reference census: every instance of the type (or a subclass) that the program still holds and that was created before the query started must be there, once; nothing of another type, no None, no duplicate; instances awaiting collection, pre-clear instances and changes made while an evaluation was open are explicit don't-cares.",
+    "level_text": "Seeded search over histories of instance creation, reference drops, reference cycles, gc, sweeps, SymbolGraph clear/re-creation, variable declarations, queries (drained, partially consumed and held, partially consumed and dropped), re-evaluations and resumptions over a class hierarchy with single, multiple and diamond inheritance. The hierarchy includes a container-like symbol that is falsy while empty and classes defined in the middle of a history. After every query the result multiset is compared with a weak-reference census: every instance of the type (or a subclass) that the program still holds and that was created before the query started must be there, once (for an evaluation resumed later: everything that existed at its start and is still held); nothing of another type, no None, no duplicate; an enumeration ends although the consumer creates one instance per result taken; instances awaiting collection, pre-clear instances and changes made while an evaluation was open are explicit don't-cares.",
     "design_ref": "DESIGN.md section 5, C13",
     "level_note": "Trusted: the harness hierarchy and handle table, the census (weak references + creation sequence numbers). The oracle accepts both readings of clear() (instances of the old graph may or may not appear).",
     "technique": "deterministic simulation: scheduled reference drops / gc / sweep / graph clear against a weak-reference census oracle with explicit don't-cares; ddmin-minimised op list as replay",
@@ -91,7 +91,7 @@ PROPERTIES["C20"] = {
     "machine": "lifecycle_sim",
     "engine": "Sim-L",
     "level": "exploration",
-    "level_text": "Seeded search over programs that repeat one cycle body 3-6 times - create hierarchy and ontology instances, relate them, tie them into reference cycles, evaluate queries with and without explicit domains (drained, partially consumed, only built), hold or drop results and query objects - and end every cycle by dropping every program reference, collecting, sweeping and taking a census. Rules: every instance whose last program reference is gone is dead at the census (survivors are attributed at the end of the run by emptying the process-wide expression tables and collecting again: what dies only then is the known expression-registry finding, what still lives is a violation reported with its referrers); after a sweep the symbol graph, the instance index, the per-class lists and the relation index hold nothing of collected instances; the size vector of these structures is the same after every warmed-up cycle.",
+    "level_text": "Seeded search over programs that repeat one cycle body 3-6 times - create hierarchy and ontology instances, relate them, tie them into reference cycles, replace instances before any sweep, evaluate queries with and without explicit domains and with comparisons, collection comparisons, cheap and self-declared expensive user predicates (drained, partially consumed, only built), hold or drop results and query objects - and end every cycle by dropping every program reference, collecting, sweeping and taking a census. Rules: every instance whose last program reference is gone is dead at the census (survivors are attributed at the end of the run by emptying the process-wide expression tables and collecting again: what dies only then is the known expression-registry finding, what still lives is a violation reported with its referrers); after a sweep the symbol graph, the instance index, the per-class lists and the relation index hold nothing of collected instances; the size vector of these structures is the same after every warmed-up cycle.",
     "design_ref": "DESIGN.md section 5, C20",
     "level_note": "The bookkeeping and growth rules read SymbolGraph's private containers because the statement is about krrood-held structures; a structure missing under its anchored name is counted as not measurable, never as a violation. Two open findings (F-C20-1, F-C20-2: immortal expressions) are matched on retained_via=expression-registry AND explicit_domain=true / structure=expression-registry only; half of the runs avoid explicit domains so that everything else is explored unshadowed.",
     "technique": "deterministic simulation: scheduled reference drops / gc / sweep with a weak-reference census oracle, in-run neutraliser (severing the expression tables) for attribution, size-vector invariant across repeated cycles",
@@ -127,7 +127,7 @@ PROPERTIES["C16"] = {
     "machine": "onto_sim",
     "engine": "Sim-O",
     "level": "exploration",
-    "level_text": "Seeded histories of write operations on one list-valued (Human.member_of) or one set-valued (Org.members) managed field, starting from contents given to the constructor: assignment of a new collection, assignment of the field to itself, += / |= (executed as real Python statements), append, extend, insert, item assignment, add, update, with elements drawn with repetition and gc / sweep events in between. A plain Python list / set receives the same operations; after every operation the field read through its public attribute must equal the model (lists: same elements, order and multiplicity) and the graph must equal the reference closure of every (owner, property, element) for every element that has ever become part of the field, with the owner visible in each such element's inverse field.",
+    "level_text": "Seeded histories of write operations on one list-valued (Human.member_of) or one set-valued (Org.members) managed field, starting from contents given to the constructor: assignment of a new collection, assignment of the field to itself, += / |= (executed as real Python statements), append, extend, insert (incl. negative and beyond-the-end indexes), item and slice assignment, add, update - with list / set / tuple / generator / iterator arguments - assignment of the live field of another owner, elements retired (collected) and created in between, elements drawn with repetition and gc / sweep events in between. A plain Python list / set receives the same operations; after every operation the field read through its public attribute must equal the model (lists: same elements, order and multiplicity) and the graph must equal the reference closure of every (owner, property, element) for every element that has ever become part of the field, with the owner visible in each such element's inverse field.",
     "design_ref": "DESIGN.md section 5, C16",
     "level_note": "The fields under test are non-transitive, so inference never writes to them and their order is fully determined by the user's writes. Unmonitored mutators outside the listed operations (slice deletion, *=, sort, ...) are not exercised.",
     "technique": "deterministic simulation: seeded operation histories with gc/sweep faults against an executable reference model (Python list/set + closure fixpoint), checked after every step",
@@ -145,7 +145,7 @@ PROPERTIES["C19"] = {
     "machine": "json_sim",
     "engine": "Sim-J",
     "level": "fault_enumeration",
-    "level_text": "A writer (to_json) stores documents as JSON text, a fault injector corrupts type tags at rest and a reader (from_json) loads them through a simulated import system (answers from sys.modules only, reproduces importlib's ValueError/TypeError/ModuleNotFoundError for degenerate names, can fail an existing module with ImportError). The quick tier enumerates the fault matrix exhaustively - every fault kind (key deleted; every JSON type and the empty string as value; missing/leading/trailing/double dots; unknown and failing modules; missing attribute, function, module, constant, TypeVar, typing alias, plain class, abstract serialiser, serialiser without deserialiser, the base class itself; every other real class; every truncation and two single-character substitutions at every position of the real tag) at every tag position of a fixed corpus of six documents - and then runs seeded multi-fault sequences over generated documents. An independent resolver classifies each corrupted tag: unresolvable -> a JSONSerializationError subclass from the admissible set of that fault class and never a returned object; resolvable to class K -> an instance of exactly K or K's own parsing error.",
+    "level_text": "A writer (to_json) stores documents as JSON text, a fault injector corrupts type tags at rest and a reader (from_json) loads them through a simulated import system (answers from sys.modules only, reproduces importlib's ValueError/TypeError/ModuleNotFoundError for degenerate names, can fail an existing module with ImportError). The quick tier enumerates the fault matrix exhaustively - every fault kind (key deleted; every JSON type and the empty string as value; missing/leading/trailing/double dots; unknown and failing modules; missing attribute, function, module, constant, TypeVar, typing alias, plain class, abstract serialiser, serialiser without deserialiser, the base class itself; every other real class; unregistered subclasses of registered types; every truncation and two single-character substitutions at every position of the real tag) at every tag position of a fixed corpus of six documents, every entry read twice in the same process - and then runs seeded histories of 1-4 reads over generated documents (repeated documents, repeated tags, names deleted or rebound in their module between two reads of a good tag). An independent resolver classifies each corrupted tag: unresolvable -> a JSONSerializationError subclass from the admissible set of that fault class and never a returned object; resolvable to class K -> an instance of exactly K or K's own parsing error.",
     "design_ref": "DESIGN.md section 5, C19",
     "level_note": "Trusted: the simulated import system and the resolver (both small, both in sim/machines/json_sim.py). A tag naming a serialiser class without _from_json (incl. SubclassJSONSerializer itself) is left open. Nothing is ever really imported: importlib.import_module is patched process-wide and a deny-all finder is the only entry of sys.meta_path during reads.",
     "technique": "deterministic simulation with enumerated fault injection: at-rest corruption of stored type tags and simulated import failures, classified by an independent reference resolver",
